@@ -52,8 +52,8 @@ PROPS = {
     "PARSE": {"level": "other", "cone": [], "explanation": "internal: parser model vs parser.Parse"},
     "RENDER": {"level": "other", "cone": [], "explanation": "internal: evaluator model vs plush.Render on a fixed battery"},
     "C03": {
-        "level": "translation_validation",
-        "cone": ["model/Bytes.v", "model/Lexer.v", "model/Ast.v", "model/Parser.v", "proofs/LexerProofs.v", "proofs/ParserProofs.v", "props/C03.v"],
+        "level": "proof",
+        "cone": ["model/Bytes.v", "model/Lexer.v", "model/Ast.v", "model/Parser.v", "proofs/LexerProofs.v", "proofs/ParserTotal.v", "proofs/EvalProofs.v", "props/C03.v"],
         "trusted_base": COMMON_TB + [
             "model/Lexer.v and model/Parser.v are hand transcriptions of lexer/lexer.go and parser/parser.go (cursor conventions, error recording, String()-derived rewiring included); tied to the code by token-stream and program-dump correspondence",
             "strconv.Atoi / ParseFloat on number literals are modelled (range check only)",
@@ -91,8 +91,8 @@ PROPS = {
         "explanation": "truthiness classification and if-chain theorems on the model + exhaustive kind matrix / truth assignments on the implementation with counting conditions",
     },
     "C06": {
-        "level": "translation_validation",
-        "cone": ["gen/Tables.v", "model/Parser.v", "model/Value.v", "model/Eval.v", "proofs/ParserProofs.v", "proofs/EvalProofs.v", "props/C06.v"],
+        "level": "proof",
+        "cone": ["gen/Tables.v", "model/Parser.v", "model/Value.v", "model/Eval.v", "proofs/ParserProofs.v", "proofs/OperatorProofs.v", "proofs/EvalProofs.v", "props/C06.v"],
         "trusted_base": COMMON_TB + [
             "model/Parser.v (Pratt loop over the precedence table regenerated from parser/precedences.go) and model/Value.v (typed operator functions) transcribe the code; floats are Coq primitive floats (IEEE binary64); regexp matching is an oracle (not modelled)",
         ],
@@ -114,8 +114,8 @@ PROPS = {
         "explanation": "sink theorems (escaped exactly once / verbatim exactly once, for every value) on the model + payload plumbing routes on the implementation with a marker oracle, re-evaluated by the model",
     },
     "C02": {
-        "level": "translation_validation",
-        "cone": ["model/Lexer.v", "model/Parser.v", "model/Eval.v", "proofs/LexerProofs.v", "props/C02.v"],
+        "level": "proof",
+        "cone": ["model/Lexer.v", "model/Parser.v", "model/Eval.v", "proofs/LexerProofs.v", "proofs/RenderProofs.v", "proofs/EvalProofs.v", "props/C02.v"],
         "trusted_base": COMMON_TB + ["model/Lexer.v (readHTML, readString, readBString) transcribes lexer/lexer.go; NUL bytes end the scan as in the code and are outside the property (NUL-free)"],
         "assumptions": [],
         "explanation": "lexer theorems (text scanning vs the reference scanner, tag-free identity, string literals) + exhaustive short strings and random interleavings compared with the concatenation of texts and values",
@@ -131,7 +131,7 @@ PROPS = {
         "explanation": "theorems about user_call on the model (arguments evaluated in the caller scope, fresh scope, unwrapped return value) + generated decision-chain functions judged against a Go reference",
     },
     "C13": {
-        "level": "translation_validation", "cone": ["gen/Tables.v", "model/Eval.v", "proofs/TablesAgree.v", "props/C13.v"],
+        "level": "proof", "cone": ["gen/Tables.v", "model/Eval.v", "model/Cache.v", "model/Expected.v", "proofs/TablesAgree.v", "proofs/CacheProofs.v", "proofs/EvalProofs.v", "props/C13.v"],
         "trusted_base": COMMON_TB + ["determinism of the model is by construction (it is a function); the sources of nondeterminism are tied to the code by the regenerated map_range_sites table (every range over a map / MapKeys in the evaluator) and by the snapshot harness (verif hook VerifProgram)", "Go map iteration order enters only through the listed sites; for-loops over Go maps are the licensed variation"],
         "assumptions": ["Go's type safety: no writes to the tree except through the assignments the translator can see (the one unsafe use in compiler.go is read-only)"],
         "explanation": "table theorems over the regenerated map-range sites + repeat / clone / cache histories with tree snapshots on the implementation, and the single model answer compared",
@@ -149,19 +149,19 @@ PROPS = {
         "explanation": "theorems relating block_with / partial_call to inline evaluation on the model + generated partial / layout / contentFor / block-helper uses compared with a second, inline run of the real engine",
     },
     "C15": {
-        "level": "translation_validation", "cone": ["model/Lexer.v", "model/Parser.v", "model/Eval.v", "proofs/LexerProofs.v", "props/C15.v"],
+        "level": "proof", "cone": ["model/Lexer.v", "model/Parser.v", "model/Eval.v", "proofs/LexerProofs.v", "proofs/LexerEquiv.v", "proofs/EvalProofs.v", "props/C15.v"],
         "trusted_base": COMMON_TB + ["the line counter of model/Lexer.v (readChar and the stamping points), the parser's error lines and exec_prog's 'line N:' wrapping transcribe the code; error message text beyond the line prefix is not modelled (compared only between the shifted and unshifted runs of the real engine)"],
         "assumptions": ["'the line on which the tag containing the failing statement begins' is read as the line of the first token of the failing statement's tag"],
         "explanation": "lexer line-counting and shift theorems on the model + generated multi-line templates with one failing statement, with a placement oracle and a shift oracle",
     },
     "C11": {
-        "level": "translation_validation", "cone": ["model/Ast.v", "model/Parser.v", "model/Eval.v", "proofs/EvalProofs.v", "props/C11.v"],
+        "level": "proof", "cone": ["model/Ast.v", "model/Parser.v", "model/Eval.v", "model/Cases.v", "proofs/EvalProofs.v", "props/C11.v"],
         "trusted_base": COMMON_TB + ["eval_chain, eval_index, index_callee (with callee_key: the substring search on printed paths) and the method lookup of eval_call in model/Eval.v, and assign_callee / split_callee in model/Parser.v, transcribe evalIdentifier, evalAccessIndex, evalIndexCallee, evalCallExpression and the parser's callee rewiring; reflect field/method lookup is modelled on the shared struct family"],
         "assumptions": [],
         "explanation": "theorems about the rebinding key on the model (with refuted witnesses for the known findings) + all short paths over a self-describing graph compared with Go navigation",
     },
     "C18": {
-        "level": "translation_validation", "cone": ["model/Lexer.v", "model/Parser.v", "proofs/LexerProofs.v", "props/C18.v"],
+        "level": "proof", "cone": ["model/Lexer.v", "model/Parser.v", "proofs/LexerProofs.v", "proofs/LexerEquiv.v", "props/C18.v"],
         "trusted_base": COMMON_TB + ["skip_ws, the # comment scan and the statement loops of model/Lexer.v and model/Parser.v transcribe skipWhitespace, the comment case of nextInsideToken, parseProgram and parseBlockStatement"],
         "assumptions": ["the two documented exceptions: '-' and '.' adjacent to a letter or digit belong to the identifier / number"],
         "explanation": "lexer layout theorems on the model + generated token-level programs rendered in canonical and re-laid-out form (metamorphic oracle), both re-evaluated by the model",
